@@ -366,6 +366,12 @@ class Ctx:
                 stmts += [(k, n, os.path.relpath(f, COQ)) for (k, n) in count_statements(f)]
         self.statements = stmts
         self.obligations = len(stmts)
+        # logical names of every obligations file, for the coqchk re-check of the thorough tier
+        self.obligation_modules = []
+        for f in files:
+            if os.path.exists(f):
+                rel = os.path.relpath(f, COQ)[:-2]
+                self.obligation_modules.append("PV." + rel.replace(os.sep, "."))
         for f in files:
             vo = f + "o"
             if os.path.exists(vo):
@@ -423,7 +429,10 @@ class Ctx:
         """Thorough tier: re-check Properties/<prop>.vo and everything it depends on with the
         independent checker coqchk and record the axioms it reports."""
         t = time.time()
-        cmd = ["timeout", str(timeout), "coqchk", "-silent", "-o", "-Q", ".", "PV", "PV.Properties." + self.prop]
+        mods = list(getattr(self, "obligation_modules", None) or ["PV.Properties." + self.prop])
+        if "PV.Properties." + self.prop not in mods:
+            mods.insert(0, "PV.Properties." + self.prop)
+        cmd = ["timeout", str(timeout), "coqchk", "-silent", "-o", "-Q", ".", "PV"] + mods
         rc, out = sh(cmd, cwd=COQ, timeout=timeout + 30)
         if rc != 0 and rc != 124:
             # a concurrent build may have been rewriting a .vo: once more, under the build lock
@@ -440,7 +449,7 @@ class Ctx:
         bad = [l for l in summary.split("\n") if ("type-in-type" in l or "unsafe" in l or "positivity is assumed" in l) and "<none>" not in l]
         if bad:
             self.broken("coqchk reports disabled kernel checks", summary)
-        return {"coqchk_axioms": axioms, "coqchk_wall_s": round(time.time() - t, 1)}
+        return {"coqchk_axioms": axioms, "coqchk_modules": mods, "coqchk_wall_s": round(time.time() - t, 1)}
 
     # -- reporting
     def write_replay(self, tag, text):
